@@ -14,7 +14,7 @@ import warnings
 
 import vf  # noqa: F401  (puts BEHAVE_SRC first on sys.path)
 from .core import HarnessError
-from .program import render_feature, normalize
+from .program import render_feature, normalize, PHRASE as PHRASES
 
 HOOK_NAMES = ["before_all", "after_all", "before_feature", "after_feature",
               "before_rule", "after_rule", "before_scenario", "after_scenario",
@@ -28,6 +28,8 @@ class Plan(object):
         self.calls = []         # (scenario name, uid)
         self.hooks = []         # (hook name, ident)
         self.cleanup_log = []   # cleanup ids in execution order
+        self.cleanup_pos = []   # (cleanup id, number of hook calls seen so far)
+        self.notes = []         # property specific observations made inside steps
         self.hook_faults = {int(k): exc for k, exc in program.get("hook_faults", [])}
         self.hook_cleanups = {}
         for c in program.get("cleanups", []):
@@ -45,6 +47,7 @@ _EXC = {"Exception": RuntimeError, "AssertionError": AssertionError}
 def make_cleanup(plan, cid, raises):
     def cleanup():
         plan.cleanup_log.append(cid)
+        plan.cleanup_pos.append((cid, len(plan.hooks)))
         if raises:
             raise RuntimeError("cleanup %s raises" % cid)
     cleanup.__name__ = "cleanup_%s" % cid
@@ -85,6 +88,12 @@ def _uid_of(step_name):
     if len(parts) >= 2 and parts[0] == "step":
         return parts[1]
     return step_name
+
+
+def _table_cells(table):
+    if table is None:
+        return None
+    return [list(table.headings)] + [list(r.cells) for r in table.rows]
 
 
 def _bad_converter(text):
@@ -147,9 +156,34 @@ def step_definitions(plan):
         acts = info["acts"]
         by_outcome[acts[plan.run_index % len(acts)]](context, uid)
 
+    def do_nest(context, uid):
+        """Calls context.execute_steps() with generated sub-steps; the caller's text/table must
+        be restored afterwards whether the sub-steps pass or fail (the caller catches)."""
+        enter(context, uid)
+        info = plan.step_info[uid]
+        before = (context.text, _table_cells(context.table))
+        lines = []
+        for sub in info["sub"]:
+            lines.append(u"Given step %s %s" % (sub["uid"], PHRASES[sub["o"]]))
+            if sub.get("text") is not None:
+                lines.append(u'  """')
+                lines.extend(u"  " + t for t in sub["text"].split(u"\n"))
+                lines.append(u'  """')
+            elif sub.get("table"):
+                for row in sub["table"]:
+                    lines.append(u"  | " + u" | ".join(row) + u" |")
+        raised = None
+        try:
+            context.execute_steps(u"\n".join(lines) + u"\n")
+        except AssertionError as e:
+            raised = "AssertionError"
+        after = (context.text, _table_cells(context.table))
+        plan.notes.append({"kind": "nest", "uid": uid, "before": before, "after": after,
+                           "raised": raised})
+
     table = [("passes", do_pass), ("fails", do_fail), ("raises", do_raise),
              ("pends", do_pending), ("skips", do_skip), ("interrupts", do_interrupt),
-             ("acts", do_act)]
+             ("acts", do_act), ("nests", do_nest)]
     defs = []
     for phrase, func in table:
         defs.append((u"step {uid:w} %s" % phrase, func))
@@ -274,7 +308,7 @@ def run_program(program, formatters=None, reporters=None, features=None, config=
     for feat in program["features"]:
         for steps in _all_step_lists(feat):
             for s in steps:
-                if s.get("cl") or s.get("emit") or s.get("acts"):
+                if s.get("cl") or s.get("emit") or s.get("acts") or s.get("sub"):
                     plan.step_info[s["uid"]] = s
     if config is None:
         config = make_config(program.get("cfg") or {})
@@ -329,6 +363,8 @@ def run_program(program, formatters=None, reporters=None, features=None, config=
     result.hooks = plan.hooks
     result.cleanup_log = plan.cleanup_log
     result.registered_cleanups = plan.registered_cleanups
+    result.cleanup_pos = plan.cleanup_pos
+    result.notes = plan.notes
     result.runner = runner
     result.config = config
     result.plan = plan
